@@ -45,7 +45,7 @@ def cases(ctx):
     pairs = classes(rng) + [('random', rng.randrange(1, 2 ** 255), rng.randrange(1, N)) for _ in range(ctx.n(1500, 60000))]
     for kind, r, s in pairs:
         ht = rng.choice(TYPES)
-        k = rng.choice([0, 0, 0, 0, 1, 2, 3, 7, 8, 9, 10, 15, 16, 17, 31, 32, 33, 64])      # number of high-R attempts before the good one
+        k = rng.choice([0, 0, 0, 0, 1, 2, 3, 7, 8, 9, 10, 15, 16, 17, 31, 32, 33, 64] + [v for v in G.source_literals() if v <= 70])      # number of high-R attempts before the good one
         atts = [der(rng.randrange(2 ** 255, N), rng.randrange(1, N)) for _ in range(k)] + [der(r, s)]
         nt = s > N // 2 or k > 0 or min(r.bit_length(), s.bit_length(), (N - s).bit_length()) <= 248
         ctx.count('norm-' + kind.split('-')[0]); ctx.count('norm-retries-' + (str(k) if k < 4 else '4..8' if k <= 8 else '9..64'))
